@@ -23,7 +23,10 @@ CHUNK = 1
 COND_A = ('include("//defs.cond")\ninclude("local.cond")\n'
           'run_experiment(name="x", run="./x.sh", args=[WHERE, LOCAL])\nrun_command(name="fail", run="./fail.sh", deps=[":x"])\n'
           'run_command(name="never", run="./n.sh")\n')
-COND_AB = 'run_experiment(name="t", run="./t.sh", deps=["//a:x"], parallelizable=True)\nrun_experiment(name="u", run="./u.sh", parallelizable=True)\ngroup(name="g", deps=[":t", ":u"])\n'
+COND_AB = ('run_experiment(name="t", run="./t.sh", deps=["//a:x"], parallelizable=True)\nrun_experiment(name="u", run="./u.sh", parallelizable=True)\ngroup(name="g", deps=[":t", ":u"])\n'
+           # graph errors whose messages name a file: the location must designate the same file from every directory
+           'run_command(name="cyc1", run="true", deps=[":cyc2"])\nrun_command(name="cyc2", run="true", deps=["//a/b:cyc1"])\n'
+           'run_command(name="dangling", run="true", deps=["//a:nope"])\n')
 FILES = {"COND": 'combine(name="top", deps=["//a/b:t", "//a:x"])\n', "a/COND": COND_A, "a/b/COND": COND_AB,
          "nocond/deep/readme": "x", "cond-out/a/.keep": "",
          # directories whose path is a character-wise prefix of cond-out / of an archive destination without being an ancestor
@@ -110,7 +113,8 @@ def commands(root):
     A = os.path.join(root, "out-archive.tar.gz")
     cmds = [
         ["run", "//a/b:g"], ["run", "//a/b:g", "--check"], ["run", "//a/b:g", "-j", "2", "--again"], ["run", "//a:fail"],
-        ["run", "//:top", "--again"], ["run", "//nope:t"],
+        ["run", "//:top", "--again"], ["run", "//nope:t"], ["run", "//a/b:cyc1"], ["run", "//a/b:cyc2", "--check"], ["run", "//a/b:dangling"],
+        ["archive", "//a/b:cyc1"],
         ["where", "//a:x"], ["where", "//a:x", "-p"], ["where", "//a:never", "-f"], ["where", "//a:never"], ["where", "//a/b:t", "-p"],
         ["where", "//:top"],
         ["archive"], ["archive", "//a/b:g"], ["archive", "--latest"], ["archive", "-o", A], ["archive", "//a:x", "-l", "-o", A],
@@ -136,7 +140,8 @@ def items(tier):
 
 GIT_FOR_STATE = {}
 RAN_FOR = __import__("re").compile(r"\(Ran for [^)]*\)")
-PATH_PREFIXES = ("Would delete ", "Deleting ", "✨ Done! Archive saved as ")
+PATH_PREFIXES = ("Would delete ", "Deleting ", "✨ Done! Archive saved as ", "-> Relevant file: ")
+LINE_IN_FILE = __import__("re").compile(r"^(-> Line \d+ in file: )(.*)$")
 
 
 def normalize(text, cwd, root):
@@ -146,6 +151,9 @@ def normalize(text, cwd, root):
             if l.startswith(p):
                 path = l[len(p):]
                 l = p + os.path.normpath(os.path.join(cwd, path))
+        m_ = LINE_IN_FILE.match(l)
+        if m_:
+            l = m_.group(1) + os.path.normpath(os.path.join(cwd, m_.group(2)))
         lines.append(RAN_FOR.sub("(Ran for T)", l.replace(root, "<ROOT>")))
     return lines
 
